@@ -37,6 +37,9 @@ func (o *Obligation) queryText(withModel bool) string {
 	b.WriteString("; obligation " + o.Name + "\n")
 	if o.vc != nil {
 		for _, l := range o.vc.lines[:o.Prefix] {
+			if o.relaxed && strings.Contains(l, "(forall ") {
+				continue
+			}
 			b.WriteString(l)
 			b.WriteByte('\n')
 		}
@@ -89,6 +92,11 @@ func solveOne(o *Obligation, opts solveOpts) {
 	if o.Status == "unbound" || (o.Status == "unsat" && o.Kind == "site-enum") {
 		return
 	}
+	if o.Cover {
+		// reachability checks are satisfiability queries: quantified background axioms only make
+		// the solvers answer "unknown"; they are dropped (the check gets weaker, never wrong-alarming)
+		o.relaxed = true
+	}
 	file := filepath.Join(opts.workdir, sanitizeFile(o.Name)+".smt2")
 	if err := os.WriteFile(file, []byte(o.queryText(false)), 0o644); err != nil {
 		o.Status = "unknown"
@@ -122,6 +130,7 @@ func solveOne(o *Obligation, opts solveOpts) {
 	}
 	if st == "error" {
 		o.Model = text
+		fmt.Fprintf(os.Stderr, "solver error on %s: %s\n", o.Name, truncate(strings.TrimSpace(text), 300))
 	}
 	// stage 2: race all
 	type r struct {
@@ -176,6 +185,25 @@ func solveOne(o *Obligation, opts solveOpts) {
 	o.Status = "unknown"
 	if errText != "" {
 		o.Model = errText
+	}
+	// model finding: quantified background axioms make solvers answer "unknown" instead of
+	// "sat"; retry without them to obtain a candidate counterexample for replay (the
+	// obligation stays undischarged either way; a spurious candidate is filtered by the replay).
+	if !o.Cover {
+		o.relaxed = true
+		rf := filepath.Join(opts.workdir, sanitizeFile(o.Name)+".relaxed.smt2")
+		if err := os.WriteFile(rf, []byte(o.queryText(false)), 0o644); err == nil {
+			ro := opts
+			if ro.timeoutS > 5 {
+				ro.timeoutS = 5
+			}
+			if st, _, _ := runSolver(context.Background(), solvers[0], rf, ro); st == "sat" {
+				o.Status, o.Backend = "sat", solvers[0].Name+" (quantified axioms dropped for model finding)"
+				o.Model = getModel(o, solvers[0], ro)
+				return
+			}
+		}
+		o.relaxed = false
 	}
 }
 
